@@ -473,6 +473,18 @@ class SymX:
         raise TypeError('round() of a symbolic real is not modelled')
 
     def __float__(self):
+        # C-level coercion.  The only legitimate one is %-formatting of a log/progress message (formatting and
+        # logging are stubbed out): recognised by the calling frame executing a BINARY_OP (`'%.3f' % x`);
+        # arithmetic never reaches __float__ because the proxy implements every operator.
+        import sys as _sys
+        import dis as _dis
+        f = _sys._getframe(1)
+        try:
+            op = _dis.opname[f.f_code.co_code[f.f_lasti]]
+        except Exception:
+            op = ''
+        if op == 'BINARY_OP':
+            return 0.0
         raise TypeError('float() of a symbolic real (shadow `float` in the analysed module)')
 
     def __int__(self):
@@ -1193,11 +1205,67 @@ class SymCtx:
     def note(self, s):
         self.notes.append(s)
 
-    def claim(self, name, c):
+    def _claim_abstract(self, name, t, abstract, hyps):
+        """Try to discharge t after replacing the given sub-terms by fresh reals (generalisation): the
+        query contains only the hypotheses, not the path condition, so an identity that is polynomial in the
+        abstracted terms is decided without the solver having to look inside them.  unsat => holds (sound:
+        the instance follows from the generalisation, and the hypotheses are separately claimed under the pc).
+        Returns (True, None) if discharged, else (False, model hints {orig term: value})."""
+        subs = []
+        seen = []
+        for a in abstract:
+            at = rterm(a) if not isinstance(a, z3.ExprRef) else a
+            if any(at.eq(x) for x in seen) or z3.is_rational_value(at):
+                continue
+            seen.append(at)
+            subs.append((at, z3.Real('abs!%d' % len(subs))))
+        hy = [_lift_bool(h) for h in hyps]
+        for k, h in enumerate(hy):
+            if h is not None:
+                self.claim('%s#hyp%d' % (name, k), SymBool(h))
+        hy = [z3.substitute(h, *subs) for h in hy if h is not None]
+        ta = z3.substitute(t, *subs)
+        s = z3.Solver()
+        s.set('random_seed', self.seed)
+        s.set('timeout', self.claim_timeout_ms)
+        s.add(*hy)
+        s.add(z3.Not(ta))
+        t0 = time.time()
+        self.n_claim_queries += 1
+        r = s.check()
+        self.solver_s += time.time() - t0
+        if r == z3.unsat:
+            return True, None
+        hints = {}
+        if r == z3.sat:
+            m = s.model()
+            for at, fv in subs:
+                try:
+                    hints[at] = m.eval(fv, model_completion=True)
+                except Exception:
+                    pass
+            # also pin the remaining free constants of the generalised query to its model
+            fresh = set(str(fv) for _, fv in subs)
+            try:
+                from z3 import z3util
+                for v in z3util.get_vars(ta):
+                    if str(v) not in fresh:
+                        hints[v] = m.eval(v, model_completion=True)
+            except Exception:
+                pass
+        return False, hints
+
+    def claim(self, name, c, abstract=None, hyps=()):
         """Discharge `c` under the path condition on a fresh solver."""
         if isinstance(c, (list, tuple)):
             c = And(*c)
         t = _lift_bool(c)
+        hints = None
+        if t is not None and abstract:
+            ok, hints = self._claim_abstract(name, t, abstract, hyps)
+            if ok:
+                self.claims.append((name, 'unsat', None))
+                return True
         if t is None:
             if c:
                 self.claims.append((name, 'folded', None))
@@ -1221,7 +1289,17 @@ class SymCtx:
         s.add(z3.Not(t))
         t0 = time.time()
         self.n_claim_queries += 1
-        r = s.check()
+        r = z3.unknown
+        if hints:
+            # the generalised query was falsifiable: look for a real counterexample near its model first
+            s.push()
+            s.add(*[at == v for at, v in hints.items()])
+            r = s.check()
+            if r != z3.sat:
+                s.pop()
+                r = z3.unknown
+        if r == z3.unknown:
+            r = s.check()
         dt = time.time() - t0
         self.solver_s += dt
         if r == z3.unsat:
@@ -1392,7 +1470,7 @@ class ConcreteCtx:
     def note(self, s):
         self.notes.append(s)
 
-    def claim(self, name, c):
+    def claim(self, name, c, abstract=None, hyps=()):
         if isinstance(c, (list, tuple)):
             c = all(bool(x) for x in _flat([c]))
         ok = bool(c)
